@@ -289,6 +289,7 @@ func c14(p *model.Prog, r *report.Result) {
 	// ---------------------------------------------------------------- R6
 	c14r6(p, r)
 	c14r7(p, r)
+	c14r89(p, r)
 }
 
 // c14r6 is defined in c14_taint.go once built; until then it records that R6 is not decided.
